@@ -293,6 +293,10 @@ def rule_thru(ctx):
             ctx.fail("C01.THRU", fn, f"{label}: inner I/O call not found", construct=f"thru:{label}:no inner")
             return
         ctx.ob("C01.THRU", fn, f"{label}: exactly one inner I/O call", len(calls) == 1, f"{label}: {len(calls)} inner I/O calls (data duplicated or re-read)", construct=f"thru:{label}:{len(calls)} inner")
+        wrapped = [q for q in walk_no_nested(fn) if isinstance(q, (ast.Try, ast.While, ast.For, ast.AsyncFor))]
+        ctx.ob("C01.THRU", fn, f"{label}: the inner call is not wrapped in a retry loop or an exception handler", not wrapped,
+               f"{label}: the inner I/O call sits in a `{type(wrapped[0]).__name__.lower() if wrapped else ''}`: an error of the underlying stream (e.g. an over-long line) is swallowed and the input "
+               "that caused it is silently dropped", construct=f"thru:{label}:wrapped")
         c = calls[0]
         if not isinstance(p.parent.get(c), ast.Await) and isinstance(fn, ast.AsyncFunctionDef) and name != "write_sync":
             if not (cls == "StreamIO" and name == "write"):
